@@ -88,7 +88,13 @@ def gen_cases(rng, tier):
     lot = [(x0, F(0)), (F(10), F(0)), (F(20), F(0)), (F(30), F(0)), (F(30), F(10)), (F(30), F(20)), (F(30), F(30)), (F(30), F(40)), (F(20), F(40)), (F(10), F(40)), (x0, F(40))]
     zone = [(x0, F(2)), (F(6), F(2)), (F(6), F(10)), (F(6), F(20)), (F(6), F(30)), (F(6), F(38)), (x0, F(38))]
     big = [(F(0), F(0)), (F(30), F(0)), (F(30), F(40)), (F(0), F(40))]
-    for outl, nogo in (([lot], []), ([big], [zone])):
+    # lots whose far (upper right) corner is cut off, with a building that lies entirely above / right of the last borehole that survives
+    # the property cut of a field
+    cut1 = [(F(0), F(0)), (F(40), F(0)), (F(40), F(12)), (F(24), F(40)), (F(0), F(40))]
+    cut2 = [(F(0), F(0)), (F(40), F(0)), (F(40), F(30)), (F(14), F(36)), (F(0), F(36))]
+    bld1 = [(F(8), F(24)), (F(16), F(24)), (F(16), F(32)), (F(8), F(32))]
+    bld2 = [(F(20), F(4)), (F(34), F(5)), (F(27), F(15))]
+    for outl, nogo in (([lot], []), ([big], [zone]), ([cut1], [bld1]), ([cut2], [bld2]), ([list(reversed(cut1))], [list(reversed(bld1))])):
         bmin = F(3)
         cases.append({"outlines": [[v4(v) for v in o] for o in outl], "nogo": [[v4(v) for v in o] for o in nogo], "bmin": [3, 1], "bx": [7, 1], "by": [8, 1],
                       "want_grid": True, "float": False, "_outl": outl, "_nogo": nogo})
@@ -192,6 +198,8 @@ def design_cases(rng, tier, cases):
     out.append(([[(F(x), F(y)) for x, y in U], [(F(a), F(H - d)), (F(b), F(H - d)), (F(b), F(H)), (F(a), F(H))]], [[(F(3), F(3)), (F(9), F(4)), (F(5), F(9))]], F(3)))
     Lsh = [(0, 0), (36, 0), (36, 16), (18, 16), (18, 32), (0, 32)]
     out.append(([[(F(x), F(y)) for x, y in Lsh], [(F(18), F(16)), (F(36), F(16)), (F(36), F(32)), (F(18), F(32))]], [], F(7, 2)))
+    # far corner cut off + a building above the last surviving borehole of the small fields
+    out.append(([[(F(0), F(0)), (F(40), F(0)), (F(40), F(12)), (F(24), F(40)), (F(0), F(40))]], [[(F(8), F(24)), (F(16), F(24)), (F(16), F(32)), (F(8), F(32))]], F(3)))
     # a sub-lot that really is covered by the main lot (adds nothing): must change nothing either
     out.append(([[(F(0), F(0)), (F(40), F(0)), (F(40), F(30)), (F(0), F(30))], [(F(5), F(5)), (F(20), F(5)), (F(20), F(20)), (F(5), F(20))]], [], F(4)))
     def area2(z):
